@@ -115,9 +115,11 @@ check('C19',
       'for EVERY N >= 1 and every bin (DC / Nyquist of both parities, N = 1, 2, 3) - axiom-free over Z; the output has ceil(N/2) samples '
       'and sample m reads analytic sample 2m < N; over the complex numbers (Coquelicot C, DFT algebra of Lib/Dft.v with its inversion '
       'theorem) the real part of the analytic signal of every real input equals the input for every N >= 1; (-i)^(2m) = (-1)^m, hence '
-      '(-1)^m Re(out m) = x(2m); linearity over an abstract carrier; dtype rule. The transform is ONE carrier-generic Gallina term: '
-      'its binary64 instance is evaluated by vm_compute against the implementation on lanes of every case. PARTIAL: tone w -> w - N/4 and '
-      'axis independence are decided by the correspondence run and an independent O(N^2) longdouble oracle (scipy.fft = DFT is an assumption).',
+      '(-1)^m Re(out m) = x(2m); the whole conversion is linear over C, the analytic signal of the real tone cos(2 pi w j/N) (0 < 2w < N) is the '
+      'complex tone at w and the conversion maps it to the tone at w - N/4 cycles per N samples (C19_linear, C19_analytic_tone, C19_tone); '
+      'dtype rule. The transform is ONE carrier-generic Gallina term: its binary64 instance is evaluated by vm_compute against the '
+      'implementation on lanes of every case. PARTIAL: axis independence and scipy.fft = this DFT are decided by the correspondence run and an '
+      'independent O(N^2) longdouble oracle; long single-precision arrays by an FFT-based double-precision monitor.',
       'Trusted: Coq kernel, stdlib real-number axioms (sig_forall_dec, sig_not_dec, functional_extensionality_dep, classic), kernel float '
       'primitives (executing instance), scipy.fft = mathematical DFT (validated numerically on every run), float16 input computed in '
       'single precision by scipy. The real-VDIF reader path is exercised by C11.',
